@@ -27,6 +27,7 @@ fn main() {
         "verify-lmdb" => rt.block_on(storage::verify_lmdb()),
         "record-storage" => rt.block_on(storage_random::record()),
         "replay-cluster" => rt.block_on(cluster::replay()),
+        "large-exchange" => rt.block_on(cluster::large_exchange()),
         "record-consistency" => rt.block_on(consistency::record()),
         "record-converge" => rt.block_on(consistency::record_converge()),
         "replay-transfer" => rt.block_on(transfer::replay()),
